@@ -108,10 +108,13 @@ class Scenario:
         for v, (tr, im) in (("A", (trajA, imuA)), ("B", (trajB, imuB))):
             o["traj", v] = tr
             o["imu", v] = im
-            o["pva", v] = tr.iloc[3].copy()
+            o["pva", v] = tr.iloc[0].copy()          # the state the increments table continues from
             o["pvar", v] = pd.concat([tr.iloc[3], pd.Series([0.01, -0.02, 0.03], index=["rate_x", "rate_y", "rate_z"])])
             o["pvar", v].name = tr.index[3]
             incs = strapdown.compute_increments_from_imu(im, "rate")
+            if v == "B":
+                incs = incs.copy()
+                incs.index = pd.Index(np.asarray(incs.index), name=None)      # hand-built / CSV data: an index without a name
             o["incs", v] = incs
             o["incrow", v] = incs.iloc[0].copy()
             o["times", v] = np.asarray(tr.index[2:20:3], dtype=float) + 0.03
@@ -238,7 +241,8 @@ def adapters(m):
         return sim.generate_imu(t, tr[LLA].values if not with_vel else tr[LLA].values[0], tr[RPHC].values, tr[VEL].values if with_vel else None)
 
     def fb(pva, incs, g, a, ms):
-        r = F.run_feedback_filter(pva, 1.0, 0.1, 0.1, 1.0, incs.loc[pva.name + 1e-9:].iloc[:12], g, a, meas_list(ms), time_step=0.3)
+        # the tables are handed over as they are (no slicing in the adapter: a slice would be a copy and hide a mutation)
+        r = F.run_feedback_filter(pva, 1.0, 0.1, 0.1, 1.0, incs, g, a, meas_list(ms), time_step=0.5)
         return r.trajectory, r.trajectory_sd, r.gyro, r.accel, r.innovations
 
     def ff(tr, incs, g, a, ms):
@@ -246,8 +250,7 @@ def adapters(m):
             incs_arg = m["strapdown"].compute_increments_from_imu(m["sim"].generate_imu(np.asarray(tr.index), tr[LLA].values, tr[RPHC].values)[1], "rate")
         else:
             incs_arg = incs
-        sub = tr.iloc[:14]
-        r = F.run_feedforward_filter(sub, sub, 1.0, 0.1, 0.1, 1.0, g, a, meas_list(ms), incs_arg, time_step=0.3)
+        r = F.run_feedforward_filter(tr, tr, 1.0, 0.1, 0.1, 1.0, g, a, meas_list(ms), incs_arg, time_step=0.5)
         return r.trajectory, r.trajectory_sd, r.gyro, r.accel, r.innovations
 
     A = {
@@ -284,7 +287,7 @@ def adapters(m):
         "strapdown.compute_increments_from_imu[rate]": lambda imu: (SD.compute_increments_from_imu(imu, "rate"),),
         "strapdown.compute_increments_from_imu[increment]": lambda imu: (SD.compute_increments_from_imu(imu, "increment"),),
         "strapdown.Integrator": lambda pva: (SD.Integrator(pva),),
-        "strapdown.Integrator.integrate": lambda it, incs: (it.integrate(incs.loc[it.get_time() + 1e-9:].iloc[:5]),),
+        "strapdown.Integrator.integrate": lambda it, incs: (it.integrate(incs),),
         "strapdown.Integrator.predict": lambda it, row: (it.predict(row),),
         "strapdown.Integrator.get_pva": lambda it: (it.get_pva(),),
         "strapdown.Integrator.get_time": lambda it: (it.get_time(),),
@@ -385,8 +388,9 @@ def schema_ok(kind, res, args, j=1):
         have = list(res.columns) if isinstance(res, pd.DataFrame) else list(res.index)
         if have != cols:
             return False
-    if idx is not None and isinstance(res, pd.DataFrame) and res.index.name != idx:
-        return False
+    named = all(a.index.name == idx for a in args if isinstance(a, pd.DataFrame))
+    if idx is not None and named and isinstance(res, pd.DataFrame) and res.index.name != idx:
+        return False          # (the index name is required when the tables passed in carry it themselves)
     return True
 
 
